@@ -306,6 +306,13 @@ where
         self
     }
 
+    /// Set the compression algorithm of the block engine. Verification harness only.
+    #[cfg(feature = "verif")]
+    pub fn with_compression(mut self, compression: Compression) -> Self {
+        self.compression = compression;
+        self
+    }
+
     /// Pass the flush holder for test.
     #[cfg(any(test, feature = "test_utils"))]
     pub fn with_flush_switch(mut self, flush_switch: Switch) -> Self {
